@@ -290,33 +290,52 @@ def _idx_lists(n, rng):
     return out
 
 
+def _scribble(t):
+    """the caller may do what it likes with a returned tensor / array: overwrite it in place"""
+    try:
+        if hasattr(t, "fill_"):
+            t.fill_(7)
+        else:
+            np.asarray(t)[...] = 7
+    except Exception:  # noqa: BLE001 - read-only results cannot alias anything
+        pass
+
+
 def _observe_ds(build, opts, idx_lists, src, tab, recipe):
-    """build() -> RasterizedMazeDataset; every item and the listed batches"""
+    """build() -> RasterizedMazeDataset.  HISTORY on the one dataset object, two records:
+    pass 0: every item, then the listed batches;  then every tensor handed out so far is overwritten in place;
+    pass 1: the batches again (list order reversed), then every item read, overwritten and read again.
+    Each pass is judged like a fresh dataset (item images against the spec, batches against the items)."""
     ric, ext, eao = opts
-    rec = dict(kind="ds", mazes=[], ric=ric, ext=ext, eao=eao, res="ok", items=[], batches=[], src=src, recipe=json.dumps(recipe))
+    new = lambda k: dict(kind="ds", mazes=[], ric=ric, ext=ext, eao=eao, res="ok", items=[], batches=[], src=f"{src}:pass{k}", recipe=json.dumps(recipe))  # noqa: E731
+    rec = new(0)
     res, ds = mz.outcome(build)
     if res == "ok":
         res, pms = mz.outcome(lambda: [mz.proj(m) for m in ds.mazes])
     if res != "ok":
         rec["res"] = res
         rec["mazes"] = recipe.get("mazes", [])
-        return rec
-    rec["mazes"] = pms
-    for i in range(len(pms)):
+        return [rec]
+    handed = []
+
+    def item(i):
         r1, t = mz.outcome(lambda: ds[i])
         it = dict(res=r1, inp=[], tgt=[])
         if r1 == "ok":
+            handed.append(t)
             p = _pair(t, tab)
             if p is None:
                 it["res"] = "raise:NotAnImagePair"
             else:
                 it["inp"], it["tgt"] = p
-        rec["items"].append(it)
-    for idxs in idx_lists(len(pms)):
+        return it
+
+    def batch(idxs):
         arg = None if idxs == "all" else idxs
         r1, b = mz.outcome(lambda: ds.get_batch(arg))
         bt = dict(idxs=list(range(len(pms))) if idxs == "all" else idxs, res=r1, out=[], none=idxs == "all")
         if r1 == "ok":
+            handed.append(b)
             try:
                 a = _arr(b)
                 if a.ndim != 5:
@@ -324,8 +343,22 @@ def _observe_ds(build, opts, idx_lists, src, tab, recipe):
                 bt["out"] = _codes(a, tab).tolist()
             except Exception:  # noqa: BLE001
                 bt["res"] = "raise:NotABatch"
-        rec["batches"].append(bt)
-    return rec
+        return bt
+
+    lists = idx_lists(len(pms))
+    rec["mazes"] = pms
+    rec["items"] = [item(i) for i in range(len(pms))]
+    rec["batches"] = [batch(x) for x in lists]
+    for t in handed:
+        _scribble(t)
+    rec2 = new(1)
+    rec2["mazes"] = pms
+    rec2["batches"] = [batch(x) for x in lists[::-1]]
+    for i in range(len(pms) - 1, -1, -1):
+        item(i)
+        _scribble(handed[-1]) if handed else None
+    rec2["items"] = [item(i) for i in range(len(pms))]
+    return [rec, rec2]
 
 
 def _base_dataset(pms):
@@ -399,7 +432,7 @@ def observe_dataset(args):
         use_default = k % 24 == 3  # added_params=None: the documented defaults (ric, ext) = (True, True), eao False
         asked = (True, True, False) if use_default else opts
         recipe = dict(how="base", mazes=pms, default=use_default)
-        return [_observe_ds(lambda: _silenced(lambda: _build_from_base(pms, None if use_default else opts)), asked, lists, f"ds:base:{seed}:{k}:{gen}:{n}", tab, recipe)]
+        return _observe_ds(lambda: _silenced(lambda: _build_from_base(pms, None if use_default else opts)), asked, lists, f"ds:base:{seed}:{k}:{gen}:{n}", tab, recipe)
     gen = GENS[(k // 3) % 5]
     kw = {"p": float(rng.choice([0.3, 0.5]))} if "percolation" in gen else {}
     recipe = dict(how="config", gen=gen, kwargs=kw, grid_n=int(rng.integers(2, min(maxn, 6) + 1)), n_mazes=int(rng.integers(1, 5)), seed=int(rng.integers(0, 2**31 - 1)))
@@ -407,9 +440,171 @@ def observe_dataset(args):
     try:
         if not _silenced(lambda: _plain_generates(recipe, tmp)):
             return []
-        return [_observe_ds(lambda: _silenced(lambda: _build_from_config(recipe, opts, tmp)), opts, lists, f"ds:config:{seed}:{k}:{gen}", tab, recipe)]
+        return _observe_ds(lambda: _silenced(lambda: _build_from_config(recipe, opts, tmp)), opts, lists, f"ds:config:{seed}:{k}:{gen}", tab, recipe)
     finally:
         shutil.rmtree(tmp, ignore_errors=True)
+
+
+# ------------------------------------------------------------------ (C5) histories: state that must not matter
+def _history(mazes, steps, src, tab):
+    """mazes = [(conn, sol)], each built ONCE; steps = [[maze index, ric, ext, eao, use]] run in order in this
+    process on those objects.  use: 0 nothing; 1 overwrite the returned tensor in place; 2 render the maze
+    (as_pixels) and overwrite that picture; 3 use the maze otherwise (hash, ascii, ==, lattice copy).
+    Every step is one ordinary item record: judged against the spec = compared with a fresh object's result."""
+    R = _rast()
+    recipe = json.dumps(dict(mazes=[[mz.raw(c), [[int(a), int(b)] for a, b in p]] for c, p in mazes], steps=steps))
+    objs = []
+    for conn, sol in mazes:
+        res, m = mz.outcome(lambda: _solved(conn, sol))
+        if res != "ok":
+            return []  # constructors are judged in observe_maze
+        objs.append((m, mz.proj(m)))
+    out = []
+    for k, (mi, ric, ext, eao, use) in enumerate(steps):
+        m, pm = objs[mi]
+        res, t = mz.outcome(lambda: R.process_maze_rasterized_input_target(m, remove_isolated_cells=ric, extend_pixels=ext, endpoints_as_open=eao))
+        rec = dict(kind="item", maze=pm, ric=ric, ext=ext, eao=eao, res=res, inp=[], tgt=[], src=f"{src}:step{k}", via="hist", hist=recipe)
+        if res == "ok":
+            p = _pair(t, tab)
+            if p is None:
+                rec["res"] = "raise:NotAnImagePair"
+            else:
+                rec["inp"], rec["tgt"] = p
+        out.append(rec)
+        if use == 1 and res == "ok":
+            _scribble(t)
+        elif use == 2:
+            r2, px = mz.outcome(lambda: m.as_pixels(show_endpoints=True, show_solution=True))
+            if r2 == "ok":
+                _scribble(px)
+        elif use == 3:
+            mz.outcome(lambda: (hash(m), m.as_ascii(), m == _solved(*mazes[mi]), m.as_pixels(show_endpoints=True, show_solution=False), mz.LatticeMaze(connection_list=m.connection_list).as_pixels()))
+    return out
+
+
+def _one_maze(rng, gen, r, c):
+    try:
+        conn = np.array(_gen_conn(rng, gen, r, c), dtype=bool)
+        assert conn.shape == (2, r, c)
+    except Exception:  # noqa: BLE001
+        conn = mz.rand_conn(rng, r, c, 0.4)
+    conn[0, -1, :] = False
+    conn[1, :, -1] = False
+    ps = _paths_for(conn, rng, r, c)
+    return conn, ps[int(rng.integers(len(ps)))]
+
+
+_SIZE_SEQ = [(10, 10), (8, 8), (8, 5), (5, 5), (3, 5), (3, 2), (2, 2)]
+
+
+def observe_history(args):
+    seed, k = args
+    rng = np.random.default_rng([seed, 317, k])
+    tab = _palette()
+    if k % 3 != 2:  # ONE maze object under all option combinations in several orders, used / scribbled on in between
+        n = int(rng.integers(2, 8))
+        conn, sol = _one_maze(rng, ["rand_perc", "gen_percolation", "gen_dfs", "gen_dfs_partial"][k % 4], n, n)
+        order = [OPTS[i] for i in rng.permutation(8)]
+        a, b = OPTS[int(rng.integers(8))], OPTS[int(rng.integers(8))]
+        seq = order + [a, b, a] + order[::-1][:3] + [(True, True, False), (False, False, True), (True, True, False)]
+        steps = [[0, o[0], o[1], o[2], int(rng.integers(0, 4))] for o in seq]
+        return _history([(conn, sol)], steps, f"hist:one:{seed}:{k}", tab)
+    # the same functions on different shapes in one process: decreasing, increasing, scrambled; narrow then wide
+    shapes = list(_SIZE_SEQ)
+    mode = (k // 3) % 3
+    if mode == 1:
+        shapes = shapes[::-1]
+    elif mode == 2:
+        shapes = [shapes[i] for i in rng.permutation(len(shapes))]
+    shapes += [(3, 2), (3, 7), (7, 3), (2, 3)]
+    mazes = [_one_maze(rng, ["rand_perc", "gen_dfs", "gen_percolation"][i % 3], r, c) for i, (r, c) in enumerate(shapes)]
+    steps = []
+    for i in range(len(mazes)):
+        o = OPTS[int(rng.integers(8))]
+        steps += [[i, o[0], o[1], o[2], int(rng.integers(0, 3))], [i, not o[0], o[1], not o[2], 0]]
+    steps += [[0, True, True, False, 0], [len(mazes) - 1, True, True, False, 0], [0, True, False, True, 0]]  # back to the first shape
+    return _history(mazes, steps, f"hist:sizes:{seed}:{k}", tab)
+
+
+def observe_ds_sizes(args):
+    """datasets of different grid sizes built and read in ONE process: decreasing, then up again"""
+    seed, k = args
+    rng = np.random.default_rng([seed, 417, k])
+    tab = _palette()
+    out, prelude = [], []
+    lists = lambda n: _idx_lists(n, rng) + ["all"]  # noqa: E731
+    sizes = [8, 5, 3, 2, 6] if k % 2 == 0 else [6, 4, 2, 5]
+    tmp = tempfile.mkdtemp(prefix="c17_", dir=str(lib.WORK))
+    try:
+        for j, n in enumerate(sizes):
+            opts = OPTS[(k + 3 * j) % 8]
+            if k % 2 == 0:
+                pms = []
+                for _ in range(int(rng.integers(2, 4))):
+                    conn, p = _one_maze(rng, ["rand_perc", "gen_dfs"][j % 2], n, n)
+                    pms.append(dict(kind="SolvedMaze", R=n, C=n, conn=mz.raw(conn), start=list(p[0]), end=list(p[-1]), sol=[list(x) for x in p]))
+                recipe = dict(how="base", mazes=pms, default=False, prelude=list(prelude))
+                out += _observe_ds(lambda: _silenced(lambda: _build_from_base(pms, opts)), opts, lists, f"ds:sizes:base:{seed}:{k}:{j}:{n}", tab, recipe)
+            else:
+                recipe = dict(how="config", gen="gen_dfs", kwargs={}, grid_n=n, n_mazes=3, seed=int(rng.integers(0, 2**31 - 1)), prelude=list(prelude))
+                if not _silenced(lambda: _plain_generates(recipe, tmp)):
+                    continue
+                out += _observe_ds(lambda: _silenced(lambda: _build_from_config(recipe, opts, tmp)), opts, lists, f"ds:sizes:config:{seed}:{k}:{j}:{n}", tab, recipe)
+            prelude.append([{x: y for x, y in recipe.items() if x != "prelude"}, list(opts)])
+    finally:
+        shutil.rmtree(tmp, ignore_errors=True)
+    return out
+
+
+# ------------------------------------------------------------------ (C6) magnitude boundaries
+def observe_big(args):
+    """grids whose picture (2n+1) and extended picture (4n+4) cross 127/128 and 255/256; solutions of >= 256 cells
+    where the graph allows; isolated cells at the largest coordinates"""
+    r, c, seed = args
+    rng = np.random.default_rng([seed, 517, r, c])
+    tab = _palette()
+    conn = np.array(_gen_conn(rng, "gen_dfs", r, c), dtype=bool)
+    conn[0, -1, :] = False
+    conn[1, :, -1] = False
+    for cell in ((r - 1, c - 1), (0, c - 1)):  # cut two corner cells off: isolated cells at the far coordinates
+        for nb in mz.nbrs(conn, cell):
+            lo = min(cell, nb)
+            conn[0 if cell[0] != nb[0] else 1, lo[0], lo[1]] = False
+    best = None
+    for s in ((0, 0), (r - 1, 0), (r // 2, c // 2)):
+        d = mz.bfs(conn, s)
+        far = max(d.values())
+        if best is None or far > best[0]:
+            best = (far, s, d)
+    far, s, d = best
+    want = min(far, 300)
+    t = min((x for x in d if d[x] == want))
+    out = []
+    src = f"big:{r}x{c}:{seed}"
+    p = _rand_shortest(conn, s, t, rng)
+    out += observe_maze(conn, p, src, tab, opts=[(True, True, False), (False, True, True), (True, False, True)])
+    out += observe_maze(conn, [(r - 1, c - 1)], src + ":iso", tab, opts=[(True, True, False), (False, True, False), (False, False, True)])
+    a = (r - 1, c - 2)
+    nb = mz.nbrs(conn, a)
+    if nb:
+        out += observe_maze(conn, [a, nb[0]], src + ":len2", tab, opts=[(True, True, True), (False, True, False)])
+    return out
+
+
+def observe_bigds(args):
+    """a dataset of 260 items: get_batch / dataset[i] with indices beyond 127 and 255"""
+    seed, n_items = args
+    rng = np.random.default_rng([seed, 617])
+    tab = _palette()
+    pms = []
+    for _ in range(n_items):
+        conn, p = _one_maze(rng, "rand_perc", 3, 3)
+        pms.append(dict(kind="SolvedMaze", R=3, C=3, conn=mz.raw(conn), start=list(p[0]), end=list(p[-1]), sol=[list(x) for x in p]))
+    n = n_items
+    lists = lambda _n: [[0, 127, 128, 129, 255, 256, n - 1], [n - 1, 256, 255, 128, 127, 0], [128], [256, 256, 0], list(range(n - 1, -1, -1)), [int(x) for x in rng.integers(0, n, size=40)], "all"]  # noqa: E731
+    opts = (True, False, True)
+    recipe = dict(how="base", mazes=pms, default=False, biglists=True)
+    return _observe_ds(lambda: _silenced(lambda: _build_from_base(pms, opts)), opts, lists, f"ds:big:{seed}:{n}", tab, recipe)
 
 
 # ------------------------------------------------------------------ (C4) post-processing helpers on arbitrary images
@@ -642,7 +837,7 @@ class _Capped:
 def _case(x):
     """what a replay needs (images are re-observed)"""
     if x["kind"] == "item":
-        return {k: x[k] for k in ("kind", "maze", "ric", "ext", "eao", "res", "src", "via")}
+        return {k: x[k] for k in ("kind", "maze", "ric", "ext", "eao", "res", "src", "via", "hist") if k in x}
     if x["kind"] == "ds":
         return dict(kind="ds", ric=x["ric"], ext=x["ext"], eao=x["eao"], res=x["res"], src=x["src"], recipe=x["recipe"], n=len(x["mazes"]),
                     item_res=[i["res"] for i in x["items"]], batches=[[b["idxs"], b["res"], b["none"]] for b in x["batches"]])
@@ -667,15 +862,15 @@ def _nontrivial(x):
     return any(v for row in x["img"] for v in row)
 
 
-def _judge(chk, cap, recs, label, what):
-    lib.judge_with_canaries(cap, "Trace_Raster", recs, make_canaries(), label=label, what=what, case_of=_case)
+def _judge(chk, cap, recs, label, what, **kw):
+    lib.judge_with_canaries(cap, "Trace_Raster", recs, make_canaries(), label=label, what=what, case_of=_case, **kw)
     if any(c == "M:input_malformed" for c, _ in chk.divergences):
         raise lib.MachineryError("the driver produced a record outside the scope of the statement (M:input_malformed)")
     by = chk.notes["records_by_kind"]
     for x in recs:
         if x["kind"] == "item":
             chk.count([x["maze"], x["ric"], x["ext"], x["eao"]], _nontrivial(x))
-            key = "item/" + x["src"].split(":")[0] + (":" + x["src"].split(":")[3] if x["src"].startswith("rnd") else "")
+            key = "item/" + x["src"].split(":")[0] + (":" + x["src"].split(":")[3] if x["src"].startswith("rnd") else "") + (":" + x["src"].split(":")[1] if x["src"].startswith(("hist", "big")) else "")
             if len(x["maze"]["sol"]) == 1:
                 by["item/solution_of_one_cell"] = by.get("item/solution_of_one_cell", 0) + 1
             if len(x["maze"]["sol"]) == 2:
@@ -761,13 +956,32 @@ def main(chk: lib.Check) -> int:
     # ---- (C3) datasets and batches
     nds = 960 if thorough else 96
     recs = [x for sub in lib.pmap(observe_dataset, [(chk.seed, k, 10 if thorough else 7) for k in range(nds)], chunksize=2) for x in sub]
-    chk.notes["datasets_skipped_generation_raises"] = nds - len(recs)
-    if len(recs) < nds // 2:
+    built = sum(1 for x in recs if x["src"].endswith("pass0"))
+    chk.notes["datasets_skipped_generation_raises"] = nds - built
+    if built < nds // 2:
         raise lib.MachineryError(f"only {len(recs)} of {nds} datasets could be built")
     small = [x for x in recs if x["res"] == "ok" and len(x["mazes"]) == 2 and x["mazes"][0]["R"] <= 3]
     if small:
         chk.sample({k: v for k, v in small[0].items() if k not in ("items", "batches")} | {"batch_idxs": [b["idxs"] for b in small[0]["batches"]]})
     _judge(chk, cap, recs, "ds", "RasterizedMazeDataset[i] judged per image; get_batch(idxs) compared item by item with dataset[idxs[k]]")
+
+    # ---- (C5) histories: the same objects / functions / datasets used repeatedly in one process
+    nh = 240 if thorough else 48
+    recs = [x for sub in lib.pmap(observe_history, [(chk.seed, k) for k in range(nh)], chunksize=2) for x in sub]
+    recs += [x for sub in lib.pmap(observe_ds_sizes, [(chk.seed, k) for k in range(32 if thorough else 8)]) for x in sub]
+    _judge(chk, cap, recs, "hist", "histories in one process: one maze object under all option combinations in several orders (A-B-A, with/without, returned tensors and rendered "
+           "pictures overwritten in between), mazes of decreasing / increasing / scrambled shapes, datasets of different grid sizes in sequence; every step judged like a fresh call")
+    chk.notes["history_steps"] = len(recs)
+
+    # ---- (C6) magnitude boundaries: pictures wider than 127 / 255 pixels, solutions of >= 256 cells, dataset indices > 127 / 255
+    bigs = [(33, 33), (65, 65), (2, 130), (130, 2)] + ([(64, 40), (100, 3), (16, 16)] if thorough else [])
+    recs = [x for sub in lib.pmap(observe_big, [(r_, c_, chk.seed) for r_, c_ in bigs]) for x in sub]
+    recs += [x for sub in lib.pmap(observe_bigds, [(chk.seed, 260)] + ([(chk.seed + 1, 1030)] if thorough else [])) for x in sub]
+    chk.notes["big_shapes"] = str(bigs)
+    chk.notes["longest_solution"] = max(len(x["maze"]["sol"]) for x in recs if x["kind"] == "item")
+    chk.notes["widest_image"] = max(len(x["inp"][0]) for x in recs if x["kind"] == "item" and x["inp"])
+    _judge(chk, cap, recs, "big", "grids 33, 65, 2x130, 130x2 (pictures up to 261 and extended pictures up to 524 pixels wide: pixel coordinates cross 127/128 and 255/256; solutions up to 301 cells; isolated cells at the largest coordinates); "
+           "a dataset of 260 items read and batched at indices 127, 128, 255, 256, 259", min_per_shard=4)
 
     # ---- (C4) post-processing helpers on arbitrary images
     ex = [(1, 1), (1, 2), (2, 1), (2, 2), (1, 3), (3, 1), (2, 3), (3, 2), (3, 3)] + ([(3, 4), (4, 3)] if thorough else [])
@@ -790,36 +1004,51 @@ def main(chk: lib.Check) -> int:
     )
 
 
+def _replay_ds(recipe, opts, lists, tab, tmp, src):
+    if recipe.get("how") == "base":
+        return _observe_ds(lambda: _silenced(lambda: _build_from_base(recipe["mazes"], None if recipe.get("default") else opts)), opts, lists, src, tab, recipe)
+    return _observe_ds(lambda: _silenced(lambda: _build_from_config(recipe, opts, tmp)), opts, lists, src, tab, recipe)
+
+
 def replay(path: str) -> int:
+    """re-runs the stored case - for histories the WHOLE history (all steps / both passes / the datasets
+    built before it in the same process) - against the real code and re-judges every record of it"""
     d = json.load(open(path))
     case = d["case"]
     tab = _palette()
     kind = case.get("kind", "item")
-    if kind == "item":
+    if kind == "item" and case.get("hist"):
+        h = json.loads(case["hist"])
+        recs = _history([(np.array(c, dtype=bool), [tuple(x) for x in p]) for c, p in h["mazes"]], h["steps"], "replay", tab)
+    elif kind == "item":
         pm = case["maze"]
         recs = observe_maze(np.array(pm["conn"], dtype=bool), pm["sol"], "replay", tab, opts=[(case["ric"], case["ext"], case["eao"])])
     elif kind == "ds":
         recipe = json.loads(case["recipe"])
         opts = (case["ric"], case["ext"], case["eao"])
-        lists = lambda n: [("all" if b[2] else b[0]) for b in case["batches"]]  # noqa: E731
-        if recipe.get("how") == "base":
-            recs = [_observe_ds(lambda: _silenced(lambda: _build_from_base(recipe["mazes"], None if recipe.get("default") else opts)), opts, lists, "replay", tab, recipe)]
-        else:
-            tmp = tempfile.mkdtemp(prefix="c17_", dir=str(lib.WORK))
-            try:
-                recs = [_observe_ds(lambda: _silenced(lambda: _build_from_config(recipe, opts, tmp)), opts, lists, "replay", tab, recipe)]
-            finally:
-                shutil.rmtree(tmp, ignore_errors=True)
+        bl = [("all" if b[2] else b[0]) for b in case["batches"]]
+        if case.get("src", "").endswith("pass1"):
+            bl = bl[::-1]
+        tmp = tempfile.mkdtemp(prefix="c17_", dir=str(lib.WORK))
+        try:
+            for pre, po in recipe.get("prelude", []):  # the datasets this process had built before
+                _replay_ds(pre, tuple(po), lambda n: [list(range(n)), "all"], tab, tmp, "prelude")
+            recs = _replay_ds(recipe, opts, lambda n: bl, tab, tmp, "replay")
+        finally:
+            shutil.rmtree(tmp, ignore_errors=True)
     else:
         recs = [_helper(kind, case["img"], tab, "replay")]
-    recs[0]["id"] = 0
+    for i, x in enumerate(recs):
+        x["id"] = i
     out = lib.oracle("Trace_Raster", recs, tag="rp")
-    v = [c for c in out.verdicts.get(0, []) if not c.startswith("M:")]
-    print("replay:", kind, case.get("src"), "options (ric, ext, eao) =", (case.get("ric"), case.get("ext"), case.get("eao")), "res", recs[0]["res"], "verdict:", out.verdicts.get(0, []))
-    if kind == "item" and recs[0]["inp"] and len(recs[0]["inp"]) <= 24:
+    allv = sorted({c for cs in out.verdicts.values() for c in cs})
+    v = [c for c in allv if not c.startswith("M:")]
+    print("replay:", kind, case.get("src"), "options (ric, ext, eao) =", (case.get("ric"), case.get("ext"), case.get("eao")), "records", len(recs), "res", recs[0]["res"], "verdict:", allv,
+          "at", sorted(out.verdicts)[:10])
+    if kind == "item" and len(recs) == 1 and recs[0]["inp"] and len(recs[0]["inp"]) <= 24:
         ch = {0: "#", 1: " ", 2: "S", 3: "E", 4: "X"}
-        for a, b in zip(recs[0]["inp"], recs[0]["tgt"]):
-            print("".join(ch.get(v_, "?") for v_ in a), "  ", "".join(ch.get(v_, "?") for v_ in b))
+        for a_, b_ in zip(recs[0]["inp"], recs[0]["tgt"]):
+            print("".join(ch.get(v_, "?") for v_ in a_), "  ", "".join(ch.get(v_, "?") for v_ in b_))
     if v:
         print(f"VIOLATION property=C17 replay={path}")
         return 1
